@@ -152,7 +152,21 @@ class Result:
 _W = {}
 
 
+def _die_with_parent():
+    """Worker processes must not outlive the check that started them (eg when it is killed)."""
+    import threading
+    ppid = os.getppid()
+
+    def watch():
+        while True:
+            time.sleep(2)
+            if os.getppid() != ppid:
+                os._exit(1)
+    threading.Thread(target=watch, daemon=True).start()
+
+
 def _worker_init(harness, monitors, prop, opts):
+    _die_with_parent()
     _W['ns'] = target.load()
     _W['harness'] = harness
     _W['monitors'] = monitors
@@ -312,6 +326,7 @@ _E = {}
 
 
 def _enum_init(worker_fn, opts):
+    _die_with_parent()
     _E['ns'] = target.load()
     _E['fn'] = worker_fn
     _E['opts'] = opts
